@@ -1,5 +1,7 @@
 # Per-property configuration of the symbolic checks. See DESIGN.md.
-REPO = "/repo"
+import os
+# the code under test: /repo. VERIF_REPO is only for trying a change on a scratch copy (tools_run_seed.sh -s) while /repo must stay untouched
+REPO = os.environ.get("VERIF_REPO", "/repo")
 
 COMMON_TRUST = [
     "engine/symex: own go/ssa symbolic executor (value model, heap, map/sync.Map association lists, forks)",
@@ -166,7 +168,7 @@ PROPS["C19"] = dict(
           dict(pkg="./sinks/writer", harness=["sinks/writer.go", "sinks/writer_c19.go"], entries=r"^H_C19_", params=dict(quick=dict(F=2), thorough=dict(F=2))),
           dict(pkg="./filters/gated", harness=["gated/gated.go", "gated/c19.go"], entries=r"^H_C19_", params=dict(quick={}, thorough={}), shards=dict(quick=4, thorough=8)),
           dict(pkg="./formatter_filters/cloudevents", harness=["cloudevents/cloudevents.go", "cloudevents/c19.go"], entries=r"^H_C19_|^H_C18_two_events$", params=dict(quick=dict(T=1), thorough=dict(T=1))),
-          dict(dir="/repo/filters/encrypt", harness=["encrypt/common.go", "encrypt/helpers_sym.go", "encrypt/helpers_native.go", "encrypt/c16.go", "encrypt/c09.go", "encrypt/c19.go"], entries=r"^H_C19_", params=dict(quick={}, thorough={}), shards=dict(quick=4, thorough=8))],
+          dict(dir=REPO + "/filters/encrypt", harness=["encrypt/common.go", "encrypt/helpers_sym.go", "encrypt/helpers_native.go", "encrypt/c16.go", "encrypt/c09.go", "encrypt/c19.go"], entries=r"^H_C19_", params=dict(quick={}, thorough={}), shards=dict(quick=4, thorough=8))],
     must_reach=["C19.core.end", "C19.table.end", "C19.writer.end", "C19.gated.end", "C19.cloudevents.end", "C19.filesink.end", "C19.encrypt.end"],
     bounds=dict(quick="pairwise (a data race is a pairwise notion); one shared Event; node instances shared or not", thorough="same"),
     assumptions=["public configuration fields that the library never writes are read-only by contract", "ChannelSink pairs are channel operations only (no shared memory)"],
@@ -186,7 +188,7 @@ PROPS["C15"] = dict(PROPS["C08"], explanation=FS_NOTE + "Assertions: rotation ha
 PROPS["C13"]["jobs"].append(dict(harness=BROKER_H, entries=r"^H_C08_Process$|^H_C13_file_specials$|^H_C13_file_partial_write$", params=dict(quick=dict(R=0, FAULTS=1), thorough=dict(R=1, FAULTS=1)), shards=dict(quick=8, thorough=16), instrument_clock=True))
 PROPS["C13"]["must_reach"] += ["C13.file.specials", "C13.file.noformat", "C13.file.partial.ok"]
 ENC_H = ["encrypt/common.go", "encrypt/helpers_sym.go", "encrypt/helpers_native.go", "encrypt/c16.go", "encrypt/history.go"]
-ENC_DIR = "/repo/filters/encrypt"
+ENC_DIR = REPO + "/filters/encrypt"
 PROPS["C16"] = dict(
     level="other",
     explanation="Filter.encrypt, Filter.hmacSha256, Rotate, the rotation-payload branch of Process, NewEventWrapper, NewDerivedReader and derivedKeyId executed symbolically with every cryptographic leaf (aead.Wrapper Encrypt/KeyBytes/KeyId, hkdf.New, io.ReadFull of the derived reader, hmac, ed25519.GenerateKey, proto.Marshal, base64) an uninterpreted deterministic function of its inputs: the output must be exactly enc / HMAC under the wrapper, salt and info in force (per-event values first), Rotate / rotation payloads install the new material (copied, not aliased) and the next value uses it; the per-event wrapper is a function of (filter wrapper key, event id) only.",
